@@ -2,6 +2,7 @@ SPECIFICATION TSpec
 CONSTANTS
   Members = {"p", "q", "r"}
   Vals = {1, 2, 3, 4, 5, 6, 7, 8, 9}
+  HwMax = 7
 CONSTRAINT Track
 POSTCONDITION Verdicts
 CHECK_DEADLOCK FALSE
